@@ -26,6 +26,7 @@ type FuncResult struct {
 	VC        *VC
 	Vacuity   []*Obligation
 	SkippedSlow int
+	VacuityUnknown int
 }
 
 func modeOf(c *Contract) Mode {
@@ -168,6 +169,13 @@ func (P *Prog) verifyFunction(fn *ssa.Function, con *Contract) *FuncResult {
 		lbl := e.Label
 		if lbl == "" {
 			lbl = fmt.Sprint(i)
+		}
+		// cover: the antecedent of an implication must be reachable, otherwise the clause is proved vacuously
+		if e.Expr.Op == "bin" && e.Expr.Name == "==>" && !strings.Contains(lbl, "!slow") {
+			n0 := len(vc.out)
+			ant := vc.evalSpecBool(post, &Clause{Consts: e.Consts, Label: e.Label, Src: e.Src, Expr: e.Expr.Args[0], File: e.File, Line: e.Line})
+			res.Vacuity = append(res.Vacuity, &Obligation{Name: res.Name + "#vacuity.post@" + lbl, Kind: "vacuity", Func: res.Name, Prefix: len(vc.out), Reach: tAnd(exit.reach, ant), Goal: tFalse, Expect: "sat", Src: "antecedent of [" + lbl + "] is reachable"})
+			_ = n0
 		}
 		// postconditions are independent obligations: do not assume earlier ones for later ones
 		o := vc.obligeNoAssume(exit, fr, "post", lbl, t, e.Src)
